@@ -19,7 +19,7 @@ LEVEL = "model_checking"
 OPNAME = {"U": "Neg", "C": "Add", "N": "Sub", "M": "TopK"}     # C must be an operator GraphPattern.commute knows
 
 
-def build_pattern(pat, alts):
+def build_pattern(pat, alts, pouts=None):
     from onnxscript.rewriter import pattern as P
 
     def fn(op, x, y):
@@ -65,6 +65,8 @@ def build_pattern(pat, alts):
             else:
                 outs[(i, 0)] = r
                 last = r
+        if pouts and len(pouts) > 1:
+            return tuple(outs[(pv[2], pv[3])] for pv in pouts)
         return last
 
     return P.Pattern(fn), fn
@@ -72,6 +74,10 @@ def build_pattern(pat, alts):
 
 def _replacement(op, **_):
     return op.Constant(value_float=0.0)
+
+
+def _replacement2(op, **_):
+    return op.Constant(value_float=0.0), op.Constant(value_float=1.0)
 
 
 def build_graph(graph, gouts, root):
@@ -99,8 +105,8 @@ def build_graph(graph, gouts, root):
             o.name = f"n{k}_{j}"
             vals[10 * k + j + 1] = o
         nodes.append(n)
-    outputs = [nodes[root - 1].outputs[0]] + [vals[v] for v in sorted(gouts)]
-    # values nobody consumes are also exported so that the graph is complete
+    # the graph returns its last node's first output (Matcher.tla EffGouts) and the values of gouts
+    outputs = [nodes[-1].outputs[0]] + [vals[v] for v in sorted(gouts) if vals[v] is not nodes[-1].outputs[0]]
     gr = ir.Graph(ins, outputs, nodes=nodes, initializers=inits, opset_imports={"": 18}, name="g")
     model = ir.Model(gr, ir_version=10)
     back = {id(v): k for k, v in vals.items() if v is not None}
@@ -111,12 +117,13 @@ def run_chunk(cases):
     out = []
     pcache = {}
     for c in cases:
-        key = json.dumps([c["pat"], c["alts"]])
+        key = json.dumps([c["pat"], c["alts"], c.get("pouts")])
+        repl = _replacement2 if len(c.get("pouts") or []) > 1 else _replacement
         try:
             from onnxscript.rewriter import pattern as P
 
             if key not in pcache:
-                pcache[key] = build_pattern(c["pat"], c["alts"])
+                pcache[key] = build_pattern(c["pat"], c["alts"], c.get("pouts"))
             pat, fn = pcache[key]
             model, nodes, back = build_graph(c["graph"], c["gouts"], c["root"])
             m = pat.match(model, model.graph, nodes[c["root"] - 1], check_nodes_are_removable=True)
@@ -127,7 +134,7 @@ def run_chunk(cases):
             if keep_interesting:
                 kkey = "k" + key
                 if kkey not in pcache:
-                    pcache[kkey] = P.RewriteRule(fn, _replacement, remove_nodes=False)
+                    pcache[kkey] = P.RewriteRule(fn, repl, remove_nodes=False)
                 model3, nodes3, _ = build_graph(c["graph"], c["gouts"], c["root"])
                 km = pcache[kkey].try_rewrite(model3, model3.graph, nodes3[c["root"] - 1]) is not None
             cm = None
@@ -136,7 +143,7 @@ def run_chunk(cases):
                 for keep in ((False, True) if keep_interesting else (False,)):
                     ckey = ("ck" if keep else "c") + key
                     if ckey not in pcache:
-                        pcache[ckey] = P.RewriteRule(fn, _replacement, remove_nodes=not keep).commute()
+                        pcache[ckey] = P.RewriteRule(fn, repl, remove_nodes=not keep).commute()
                     hit = False
                     for q in pcache[ckey]:
                         model2, nodes2, _ = build_graph(c["graph"], c["gouts"], c["root"])
@@ -165,6 +172,8 @@ def describe(c):
     ps = [f"p{i}={pn['op']}({', '.join(pv(v) for v in pn['ins'])}{', a=' + str(pn['at']) if pn['at'][0] != 'any' else ''}"
           f"{', other_inputs' if pn['aoi'] else ''}{', no_other_attrs' if not pn['aoa'] else ''})" for i, pn in enumerate(c["pat"], 1)]
     al = [f"Or{k}=[{pv(a[0])}|{pv(a[1])}]" for k, a in enumerate(c["alts"], 1)]
+    if len(c.get("pouts") or []) > 1:
+        al.append("returns (" + ", ".join(pv(v) for v in c["pouts"]) + ")")
     gs = [f"n{k}={g['op']}({', '.join('v' + str(i) if 0 < i < 10 else ('None' if i == 0 else f'n{i // 10}_{i % 10 - 1}') for i in g['ins'])}{', a=%d' % g['a'] if g['a'] else ''}{', b=1' if g.get('b') else ''})"
           for k, g in enumerate(c["graph"], 1)]
     return f"pattern {'; '.join(ps + al)} | graph {'; '.join(gs)} outputs+{c['gouts']} root n{c['root']} (mutation: {c['mut']})"
@@ -172,7 +181,8 @@ def describe(c):
 
 def run(ctx: core.Ctx):
     cases = []
-    for cfg in (["Matcher_local.cfg", "Matcher_quick.cfg"] if ctx.quick else ["Matcher_local.cfg", "Matcher_quick.cfg", "Matcher_thorough.cfg"]):
+    for cfg in (["Matcher_local.cfg", "Matcher_quick.cfg", "Matcher_multi.cfg"] if ctx.quick
+                else ["Matcher_local.cfg", "Matcher_quick.cfg", "Matcher_multi.cfg", "Matcher_multi_or.cfg", "Matcher_thorough.cfg"]):
         res = core.run_tlc("Matcher", cfg, timeout=3000)
         ctx.tlc(res, cfg)
         if not res.ok:
@@ -254,7 +264,8 @@ def run(ctx: core.Ctx):
     ctx.set("exhaustive", not ctx.quick or len(cases) == ctx.coverage["spec_cases"])
     ctx.set("rule", "cases = 'done' states of Matcher.tla: every pattern of the cfg's bound x every instantiation x every single mutation; "
                     "non-trivial = the declarative meaning says the (possibly mutated) subgraph is an instance; distinct by (pattern, graph, root)")
-    ctx.assumptions += ["patterns with one output node (SimplePatternMatcher single-output path); commute=False",
+    ctx.assumptions += ["patterns return one or two values (one or two output nodes: _match_single_output_node and _multi_match with its candidate "
+                        "enumeration); remove_nodes True and False; commute through RewriteRule.commute()",
                         "two pattern nodes may correspond to the same graph node (as the implementation allows)"]
 
 
